@@ -10,8 +10,11 @@
 //!   Rust oracle: identical events under every partition (independent of any model); item boundaries
 //!   (from the private tokenizer over the production automata) conserve bytes and equal the reference
 //!   maximal munch. O lines: Lean `tokenize` on the dumped production DFA. C lines: Lean model.
+#[path = "c04/events.rs"]
+mod events;
 use serde_json::{Value, json};
-use std::io::Cursor;
+use std::io::{Cursor, Write as _};
+use surf_n_term::common::IOQueue;
 use std::path::PathBuf;
 use std::sync::Mutex;
 use surf_n_term::automata::NFA;
@@ -99,6 +102,24 @@ enum Re {
     Plus(Box<Re>),
     Star(Box<Re>),
     Opt(Box<Re>),
+    /// byte class built with `NFA::predicate`: inclusive ranges
+    Set(Vec<(u8, u8)>),
+}
+
+fn in_ranges(rs: &[(u8, u8)], b: u8) -> bool {
+    rs.iter().any(|(lo, hi)| *lo <= b && b <= *hi)
+}
+
+/// every byte except `x`
+fn all_but(x: u8) -> Vec<(u8, u8)> {
+    let mut v = Vec::new();
+    if x > 0 {
+        v.push((0, x - 1));
+    }
+    if x < 255 {
+        v.push((x + 1, 255));
+    }
+    v
 }
 
 impl Re {
@@ -110,6 +131,10 @@ impl Re {
             Re::Plus(r) => r.nfa().some(),
             Re::Star(r) => r.nfa().many(),
             Re::Opt(r) => r.nfa().optional(),
+            Re::Set(rs) => {
+                let rs = rs.clone();
+                NFA::predicate(move |b| in_ranges(&rs, b))
+            }
         }
     }
     fn show(&self) -> String {
@@ -120,6 +145,7 @@ impl Re {
             Re::Plus(r) => format!("({})+", r.show()),
             Re::Star(r) => format!("({})*", r.show()),
             Re::Opt(r) => format!("({})?", r.show()),
+            Re::Set(rs) => format!("[{}]", rs.iter().map(|(a, b)| format!("{a:02x}-{b:02x}")).collect::<Vec<_>>().join(",")),
         }
     }
     fn to_json(&self) -> Value {
@@ -130,6 +156,27 @@ impl Re {
             Re::Plus(r) => json!(["plus", r.to_json()]),
             Re::Star(r) => json!(["star", r.to_json()]),
             Re::Opt(r) => json!(["opt", r.to_json()]),
+            Re::Set(rs) => json!(["set", rs.iter().map(|(a, b)| json!([a, b])).collect::<Vec<_>>()]),
+        }
+    }
+    /// bytes that decide how the pattern treats any byte: one representative of every region of the
+    /// alphabet delimited by the literals' bytes and the classes' bounds (plus both ends)
+    fn alphabet(&self, out: &mut Vec<u8>) {
+        let mut push = |b: u8| {
+            for x in [b.wrapping_sub(1), b, b.wrapping_add(1)] {
+                if !out.contains(&x) {
+                    out.push(x);
+                }
+            }
+        };
+        match self {
+            Re::Lit(s) => s.iter().for_each(|b| push(*b)),
+            Re::Seq(v) | Re::Alt(v) => v.iter().for_each(|r| r.alphabet(out)),
+            Re::Plus(r) | Re::Star(r) | Re::Opt(r) => r.alphabet(out),
+            Re::Set(rs) => rs.iter().for_each(|(a, b)| {
+                push(*a);
+                push(*b);
+            }),
         }
     }
     fn from_json(v: &Value) -> Option<Re> {
@@ -142,6 +189,13 @@ impl Re {
             "plus" => Re::Plus(Box::new(Re::from_json(a.get(1)?)?)),
             "star" => Re::Star(Box::new(Re::from_json(a.get(1)?)?)),
             "opt" => Re::Opt(Box::new(Re::from_json(a.get(1)?)?)),
+            "set" => Re::Set(
+                a.get(1)?
+                    .as_array()?
+                    .iter()
+                    .map(|p| Some((p.get(0)?.as_u64()? as u8, p.get(1)?.as_u64()? as u8)))
+                    .collect::<Option<Vec<_>>>()?,
+            ),
             _ => return None,
         })
     }
@@ -187,17 +241,53 @@ fn gen_pattern(rng: &mut Rng, spine: &[u8]) -> Re {
     }
 }
 
+/// patterns over the whole byte alphabet (classes built with `NFA::predicate`, "anything but" payloads,
+/// optional groups that begin with a loop) next to the plain ones
+fn gen_wide_pattern(rng: &mut Rng, spine: &[u8]) -> Re {
+    let l = |b: u8| Re::Lit(vec![b]);
+    let a = *rng.pick(ABC);
+    let b = *rng.pick(ABC);
+    match rng.below(7) {
+        // a [^b]* b : payload of anything but the closing byte (0x00 and 0xff included)
+        0 | 1 => Re::Seq(vec![l(a), Re::Star(Box::new(Re::Set(all_but(b)))), l(b)]),
+        // high bytes / the whole alphabet / the last symbol alone
+        2 => Re::Seq(vec![l(a), Re::Plus(Box::new(Re::Set(vec![(0x80, 0xff)])))]),
+        3 => Re::Seq(vec![l(a), Re::Set(vec![(*rng.pick(&[0u8, 0x1a, 0x7f, 0xfe, 0xff]), 0xff)]), l(b)]),
+        // c ((ab)+ c)? b : the optional group starts with a loop (its start state has an incoming edge)
+        4 | 5 => Re::Seq(vec![
+            l(a),
+            Re::Opt(Box::new(Re::Seq(vec![Re::Plus(Box::new(Re::Lit(word(rng, 1, 2)))), l(*rng.pick(ABC))]))),
+            l(b),
+        ]),
+        // (x* y)? z : likewise with a star
+        _ => Re::Seq(vec![
+            Re::Opt(Box::new(Re::Seq(vec![Re::Star(Box::new(l(a))), l(b)]))),
+            Re::Lit(spine[..1 + rng.below(spine.len() as u64) as usize].to_vec()),
+        ]),
+    }
+}
+
 fn gen_patterns(rng: &mut Rng) -> Vec<Re> {
     let spine = word(rng, 3, 6);
     let n = 3 + rng.below(6);
-    (0..n).map(|_| gen_pattern(rng, &spine)).collect()
+    let wide = rng.chance(1, 3);
+    (0..n)
+        .map(|_| if wide && rng.chance(1, 2) { gen_wide_pattern(rng, &spine) } else { gen_pattern(rng, &spine) })
+        .collect()
 }
 
 fn gen_input(rng: &mut Rng, max: u64) -> Vec<u8> {
     let n = rng.below(max + 1);
     let foreign = rng.chance(1, 3);
     (0..n)
-        .map(|_| if foreign && rng.chance(1, 8) { b'x' } else { *rng.pick(ABC) })
+        .map(|_| {
+            if foreign && rng.chance(1, 6) {
+                // bytes outside the letters, both ends of the alphabet included
+                *rng.pick(&[b'x', 0x00, 0x1a, 0x7f, 0x80, 0xfe, 0xff, 0xff])
+            } else {
+                *rng.pick(ABC)
+            }
+        })
         .collect()
 }
 
@@ -426,6 +516,7 @@ enum Dv {
     Empty,
     Eps,
     Byte(u8),
+    Set(Vec<(u8, u8)>),
     Seq(Box<Dv>, Box<Dv>),
     Alt(Vec<Dv>),
     Star(Box<Dv>),
@@ -481,12 +572,19 @@ fn dv_of(re: &Re) -> Dv {
         Re::Plus(r) => dv_seq(dv_of(r), dv_star(dv_of(r))),
         Re::Star(r) => dv_star(dv_of(r)),
         Re::Opt(r) => dv_alt(vec![Dv::Eps, dv_of(r)]),
+        Re::Set(rs) => {
+            if rs.iter().any(|(a, b)| a <= b) {
+                Dv::Set(rs.clone())
+            } else {
+                Dv::Empty
+            }
+        }
     }
 }
 
 fn dv_nullable(d: &Dv) -> bool {
     match d {
-        Dv::Empty | Dv::Byte(_) => false,
+        Dv::Empty | Dv::Byte(_) | Dv::Set(_) => false,
         Dv::Eps | Dv::Star(_) => true,
         Dv::Seq(a, b) => dv_nullable(a) && dv_nullable(b),
         Dv::Alt(v) => v.iter().any(dv_nullable),
@@ -504,6 +602,13 @@ fn dv_deriv(d: &Dv, c: u8) -> Dv {
                 Dv::Empty
             }
         }
+        Dv::Set(rs) => {
+            if in_ranges(rs, c) {
+                Dv::Eps
+            } else {
+                Dv::Empty
+            }
+        }
         Dv::Seq(a, b) => {
             let left = dv_seq(dv_deriv(a, c), (**b).clone());
             if dv_nullable(a) { dv_alt(vec![left, dv_deriv(b, c)]) } else { left }
@@ -513,9 +618,10 @@ fn dv_deriv(d: &Dv, c: u8) -> Dv {
     }
 }
 
-/// some non-empty word is matched (the patterns use the letters of `ABC` only)
-fn dv_extendable(d: &Dv) -> bool {
-    ABC.iter().any(|c| dv_deriv(d, *c) != Dv::Empty)
+/// some non-empty word is matched (`alphabet`: a representative of every class of bytes the patterns
+/// can tell apart)
+fn dv_extendable(d: &Dv, alphabet: &[u8]) -> bool {
+    alphabet.iter().any(|c| dv_deriv(d, *c) != Dv::Empty)
 }
 
 /// Leftmost-longest tokenisation of a received stream with respect to a SET OF PATTERNS, computed from
@@ -525,7 +631,7 @@ fn dv_extendable(d: &Dv) -> bool {
 /// last byte completed a match that no pattern can extend; otherwise the rest is pending.
 /// Returns items (`Some(set of matching patterns)` or `None` for unrecognised, bytes), pending, tails.
 #[allow(clippy::type_complexity)]
-fn pattern_tokenize(pats: &[Dv], input: &[u8]) -> (Vec<(Option<Vec<usize>>, Vec<u8>)>, Vec<u8>, Vec<usize>) {
+fn pattern_tokenize(pats: &[Dv], alphabet: &[u8], input: &[u8]) -> (Vec<(Option<Vec<usize>>, Vec<u8>)>, Vec<u8>, Vec<usize>) {
     let mut items = Vec::new();
     let mut tails = Vec::new();
     let mut pos = 0;
@@ -547,7 +653,7 @@ fn pattern_tokenize(pats: &[Dv], input: &[u8]) -> (Vec<(Option<Vec<usize>>, Vec<
             let matching: Vec<usize> = ds.iter().enumerate().filter(|(_, d)| dv_nullable(d)).map(|(k, _)| k).collect();
             if !matching.is_empty() {
                 last = Some((i, matching));
-                if !ds.iter().any(dv_extendable) {
+                if !ds.iter().any(|d| dv_extendable(d, alphabet)) {
                     decided = true; // complete: nothing longer can match
                     break;
                 }
@@ -747,6 +853,8 @@ fn pattern_case(ctx: &mut Ctx, rng: &mut Rng, pats: &[Re], inputs: &[Vec<u8>], f
     ctx.out.corr(&req, &ans);
     check_terminal_flags(&mut ctx.out, &dfa, json!({"kind": "patterns", "patterns": pats_json, "show": pats_show}));
     let dvs: Vec<Dv> = pats.iter().map(dv_of).collect();
+    let mut alphabet: Vec<u8> = vec![0, 255];
+    pats.iter().for_each(|p| p.alphabet(&mut alphabet));
     ctx.out.hist(&format!("dfa-states:{}", (dfa.len() / 4) * 4));
     for input in inputs {
         let mut parts: Vec<(u64, Vec<Vec<u8>>)> = match &forced_chunks {
@@ -757,7 +865,7 @@ fn pattern_case(ctx: &mut Ctx, rng: &mut Rng, pats: &[Re], inputs: &[Vec<u8>], f
             parts.extend(all_three_pieces(input).into_iter().map(|c| (8, c)));
         }
         // expectation from the patterns alone (independent of NFA::compile and of the dumped DFA)
-        let (exp_items, exp_pending, tails) = pattern_tokenize(&dvs, input);
+        let (exp_items, exp_pending, tails) = pattern_tokenize(&dvs, &alphabet, input);
         hist_tails(&mut ctx.out, "A", &tails);
         let mut whole: Option<Vec<(Option<usize>, Vec<u8>)>> = None;
         for (mode, chunks) in parts {
@@ -1206,6 +1314,38 @@ where
     out
 }
 
+/// The same through the crate's own chunked reader: every read is written to an `IOQueue` and flushed (one
+/// chunk per read, an empty read leaves an empty chunk behind a non-empty one), then the decoder reads
+/// from the queue until it is drained.
+fn queue_events<D: Decoder>(mut dec: D, chunks: &[Vec<u8>]) -> Vec<String>
+where
+    D::Item: std::fmt::Debug,
+{
+    let r = guarded(|| {
+        let mut q = IOQueue::new();
+        for c in chunks {
+            q.write_all(c).unwrap();
+            q.flush().unwrap();
+        }
+        let total: usize = chunks.iter().map(|c| c.len()).sum();
+        let mut out = Vec::new();
+        for _ in 0..(4 * (chunks.len() + 4) + total) {
+            let mut items = Vec::new();
+            let r = dec.decode_into(&mut q, &mut items);
+            out.extend(items.iter().map(|e| format!("{e:?}")));
+            if r.is_err() {
+                out.push("ERROR".into());
+            }
+            if q.is_empty() {
+                return out;
+            }
+        }
+        out.push("QUEUE-NOT-DRAINED".into());
+        out
+    });
+    r.unwrap_or_else(|()| vec!["PANIC".into()])
+}
+
 fn production_case(ctx: &mut Ctx, rng: &mut Rng, command: bool, stream: &[u8], reference: &RefDfa, forced: Option<Vec<Vec<u8>>>) {
     let name = if command { "cmd" } else { "ev" };
     let parts: Vec<Vec<Vec<u8>>> = match forced {
@@ -1230,9 +1370,11 @@ fn production_case(ctx: &mut Ctx, rng: &mut Rng, command: bool, stream: &[u8], r
         for chunks in &parts {
             if command {
                 let _ = public_events(TTYCommandDecoder::new(), chunks);
+                let _ = queue_events(TTYCommandDecoder::new(), chunks);
                 let _ = guarded(|| run_tok(&mut VerifTokenizer::command(), chunks, true, false));
             } else {
                 let _ = public_events(TTYEventDecoder::new(), chunks);
+                let _ = queue_events(TTYEventDecoder::new(), chunks);
                 let _ = guarded(|| run_tok(&mut VerifTokenizer::event(), chunks, true, false));
             }
         }
@@ -1266,6 +1408,23 @@ fn production_case(ctx: &mut Ctx, rng: &mut Rng, command: bool, stream: &[u8], r
                         json!(events),
                     );
                 }
+            }
+        }
+        // 1b. the same reads delivered through the crate's chunked reader `IOQueue`
+        if !events.iter().any(|e| e == "PANIC") {
+            let qev = if command {
+                queue_events(TTYCommandDecoder::new(), chunks)
+            } else {
+                queue_events(TTYEventDecoder::new(), chunks)
+            };
+            ctx.out.hist(&format!("B:{name}:reader:IOQueue"));
+            if Some(&qev) != base_events.as_ref() {
+                ctx.out.fail(
+                    &format!("{name} decoder fed through IOQueue (one chunk per read): events differ from those of the single buffer"),
+                    json!({"kind": name, "stream": hex(stream), "chunks": chunks_str(chunks), "reader": "IOQueue"}),
+                    json!(base_events),
+                    json!(qev),
+                );
             }
         }
         // 2. item boundaries from the private tokenizer over the production automaton
@@ -1399,6 +1558,34 @@ fn utf8_run(chunks: &[Vec<u8>]) -> Result<(Vec<Vec<(char, Vec<u8>, String)>>, Ve
     })
 }
 
+/// `Utf8Decoder` reading from an `IOQueue` holding one chunk per read: kinds and values of the results
+fn utf8_queue_run(chunks: &[Vec<u8>]) -> Vec<String> {
+    guarded(|| {
+        let mut q = IOQueue::new();
+        for c in chunks {
+            q.write_all(c).unwrap();
+            q.flush().unwrap();
+        }
+        let total: usize = chunks.iter().map(|c| c.len()).sum();
+        let mut dec = Utf8Decoder::new();
+        let mut out = Vec::new();
+        for _ in 0..(4 * (chunks.len() + 4) + 2 * total) {
+            match dec.decode(&mut q) {
+                Ok(Some(c)) => out.push(format!("{c:?}")),
+                Err(_) => out.push("error".to_string()),
+                Ok(None) => {
+                    if q.is_empty() {
+                        return out;
+                    }
+                }
+            }
+        }
+        out.push("QUEUE-NOT-DRAINED".into());
+        out
+    })
+    .unwrap_or_else(|()| vec!["PANIC".into()])
+}
+
 fn utf8_answer(per: &[Vec<(char, Vec<u8>, String)>], pending: &[u8]) -> String {
     format!(
         "{} buf={}",
@@ -1430,6 +1617,7 @@ fn utf8_case(ctx: &mut Ctx, rng: &mut Rng, stream: &[u8], forced: Option<Vec<Vec
     let survived = survives(|| {
         for chunks in &parts {
             let _ = utf8_run(chunks);
+            let _ = utf8_queue_run(chunks);
         }
     });
     if !survived {
@@ -1457,6 +1645,19 @@ fn utf8_case(ctx: &mut Ctx, rng: &mut Rng, stream: &[u8], forced: Option<Vec<Vec
             let got: Vec<String> = flat.iter().map(|x| x.2.clone()).collect();
             if want != got || !pending.is_empty() {
                 ctx.out.fail("Utf8Decoder: characters differ from the text", input_json.clone(), json!(want), json!(got));
+            }
+        }
+        {
+            let want: Vec<String> = base.as_ref().unwrap_or(&flat).iter().map(|x| x.2.clone()).collect();
+            let got = utf8_queue_run(chunks);
+            ctx.out.hist("B:utf8:reader:IOQueue");
+            if want != got {
+                ctx.out.fail(
+                    "Utf8Decoder fed through IOQueue (one chunk per read): results differ from those of the single buffer",
+                    json!({"kind": "utf8", "stream": hex(stream), "chunks": chunks_str(chunks), "reader": "IOQueue"}),
+                    json!(want),
+                    json!(got),
+                );
             }
         }
         match &base {
@@ -1506,6 +1707,14 @@ fn install_production(ctx: &mut Ctx) -> (RefDfa, RefDfa) {
         let (req, ans) = dfa_request(name, d);
         ctx.out.corr(&req, &ans);
         check_terminal_flags(&mut ctx.out, d, json!({"kind": "dfa", "name": name}));
+        // the set of recognised sequences: the dumped automaton against the automaton of the Lean transcription
+        // of the documented grammar (language and terminal flags, exhaustive product exploration, tags ignored)
+        let which = match name {
+            "ev" => "event",
+            "cmd" => "command",
+            _ => "utf8",
+        };
+        ctx.out.oracle(&format!("c03 lang {name} {which}"), &format!("ok {}", d.len()));
         ctx.out.extra(&format!("dfa_{name}"), json!({"states": d.len(), "edges": d.iter().map(|s| s.edges.len()).sum::<usize>(),
             "accepting_non_terminal": d.iter().filter(|s| s.accepting && !s.terminal).count()}));
     }
@@ -1547,8 +1756,46 @@ fn replay(ctx: &mut Ctx, rng: &mut Rng, input: &Value, refs: &(RefDfa, RefDfa)) 
     }
 }
 
+/// `SurfModel/Generated/KeyTable.lean`, byte for byte what `c04 tables` / `c02 tables` write (the grammar
+/// the `c03 lang` lines compare with contains the literal key table)
+fn key_table_lean() -> String {
+    use surf_n_term::terminal::TerminalEvent;
+    let rows: Vec<(Vec<u8>, u64, u64, u64)> = surf_n_term::decoder::verif_c04::key_table()
+        .into_iter()
+        .map(|(bytes, event)| match event {
+            TerminalEvent::Key(k) => {
+                let (v, p) = events::key_name_variant(k.name);
+                (bytes, v, p, events::mod_bits(k.mode))
+            }
+            _ => (bytes, 99, 0, 0),
+        })
+        .collect();
+    let mut s = String::new();
+    s.push_str("/-! Literal key table of `basic_events_nfa()` (src/decoder.rs), rewritten from the implementation on every\nrun (`c04 tables`, hook `verif_c04::key_table`): bytes, `KeyName` variant, its payload, modifier bits,\nin registration order. -/\n");
+    s.push_str("namespace SurfModel.Generated\n\n");
+    s.push_str("def keyTable : List (List Nat × Nat × Nat × Nat) := [\n");
+    for (i, (bytes, v, p, m)) in rows.iter().enumerate() {
+        let bs: Vec<String> = bytes.iter().map(|b| b.to_string()).collect();
+        s.push_str(&format!("  ([{}], {v}, {p}, {m}){}\n", bs.join(", "), if i + 1 == rows.len() { "" } else { "," }));
+    }
+    s.push_str("]\n\nend SurfModel.Generated\n");
+    s
+}
+
 fn main() {
     let cfg = Cfg::from_env();
+    if let Some(names) = &cfg.tables {
+        for name in names {
+            match name.as_str() {
+                "KeyTable" => std::fs::write(cfg.outdir.join("KeyTable.lean"), key_table_lean()).unwrap(),
+                other => {
+                    eprintln!("c03: unknown table {other}");
+                    std::process::exit(2);
+                }
+            }
+        }
+        return;
+    }
     let out = cfg.out();
     install_abort_hook(&cfg.outdir);
     let mut ctx = Ctx { out, dfa_serial: 0, force_by_decode: None, aborted: Vec::new() };
@@ -1580,6 +1827,34 @@ fn main() {
         let inputs: Vec<Vec<u8>> = inputs.iter().map(|s| s.as_bytes().to_vec()).collect();
         pattern_case(&mut ctx, &mut rng, pats, &inputs, None, true);
     }
+    // classes built with `NFA::predicate` over the whole alphabet (both ends: 0x00, 0xff) and optional groups
+    // that begin with a loop (`r((ab)+=)?;`: the group's start state has an incoming edge)
+    let lb = |b: u8| Re::Lit(vec![b]);
+    let wide_sets: Vec<(Vec<Re>, Vec<&[u8]>)> = vec![
+        (
+            vec![Re::Seq(vec![lb(b'a'), Re::Star(Box::new(Re::Set(all_but(b'b')))), lb(b'b')]), lb(b'a'), lb(b'c')],
+            vec![b"a\xffb", b"a\x00\xff\x7fbc", b"a\xfe\xffx", b"acc\xffbab", b"\xffab"],
+        ),
+        (
+            vec![Re::Seq(vec![lb(b'a'), Re::Plus(Box::new(Re::Set(vec![(0x80, 0xff)])))]), Re::Set(vec![(0xff, 0xff)]), Re::Set(vec![(0, 0)])],
+            vec![b"a\x80\xffb", b"\xff\xffa\xff", b"\x00a\xfe\xff\x00", b"a\x7f"],
+        ),
+        (
+            vec![
+                Re::Seq(vec![lb(b'c'), Re::Opt(Box::new(Re::Seq(vec![Re::Plus(Box::new(Re::Lit(b"ab".to_vec()))), lb(b'c')]))), lb(b'b')]),
+                lb(b'c'),
+            ],
+            vec![b"cabb", b"cabcb", b"cb", b"cababcbcab", b"cababb"],
+        ),
+        (
+            vec![Re::Seq(vec![Re::Opt(Box::new(Re::Seq(vec![Re::Star(Box::new(lb(b'a'))), lb(b'b')]))), lb(b'c')]), lb(b'a')],
+            vec![b"aac", b"aabc", b"c", b"bc", b"aaac"],
+        ),
+    ];
+    for (pats, inputs) in &wide_sets {
+        let inputs: Vec<Vec<u8>> = inputs.iter().map(|s| s.to_vec()).collect();
+        pattern_case(&mut ctx, &mut rng, pats, &inputs, None, true);
+    }
     let corner_streams: Vec<&[u8]> = vec![
         b"\x1bOT",
         b"\x1b[200~paste \xe2\x82\xac text\x1b[201~",
@@ -1597,6 +1872,14 @@ fn main() {
         b"\x1b[97;5u\x1b[?1u\x1b[?62;4c",
         b"\x1b[38;2;1;2;3;4m\x1b[m",
         b"\x1b_Gi=1;OK\x1b\\\x1b_Gi=1;OK\x1b",
+        // string payloads with bytes from both ends of the alphabet; optional parts present / absent
+        b"\x1b_Gi=31;bad \xff\x00\x1a\x7f\x80 payload\x1b\\x",
+        b"\x1b[200~\x00\x1a\x7f\x80\xff\x1b[201~\x1b]11;\xff\x80\x7f\x1a\x00\x07",
+        b"\x1bP1$r\xff\x00 q\x1b\\\x1bP0$r\x1b\\",
+        b"\x1bP1+r4142\x1b\\",
+        b"\x1bP1+r4142=43\x1b\\\x1bP1+r\x1b\\\x1bP0+r4142\x1b\\\x1bP1+r4142=43;44\x1b\\",
+        b"\x1b[1;31;m\x1b[1;31m\x1b[;m\x1b[?62;c\x1b[?62c",
+        b"\x1b[97;15Rab\x1b[1;5A\xd1\x8f\x1bOT\x1b[<0;94;14M",
     ];
     for s in &corner_streams {
         production_case(&mut ctx, &mut rng, false, s, &refs.0, None);
@@ -1622,7 +1905,7 @@ fn main() {
     }
 
     // ---- generated
-    let (n_sets, n_inputs, n_streams, n_utf8) = if cfg.thorough { (30000, 8, 40000, 40000) } else { (2000, 5, 2500, 3000) };
+    let (n_sets, n_inputs, n_streams, n_utf8) = if cfg.thorough { (30000, 8, 40000, 40000) } else { (2000, 5, 1800, 2000) };
     for _ in 0..n_sets {
         let pats = gen_patterns(&mut rng);
         let max = if cfg.thorough { 40 } else { 24 };
